@@ -604,30 +604,48 @@ class ParsedField:
     raw: bytes
 
 
+def _read_exactly(stream: "SupportsRead[bytes]", size: int) -> bytes:
+    """Read exactly ``size`` bytes from the stream or raise :class:`EOFError`."""
+    data = stream.read(size)
+    if len(data) != size:
+        raise EOFError("Stream ended unexpectedly while attempting to load a field.")
+    return data
+
+
 def load_fields(stream: "SupportsRead[bytes]") -> Generator[ParsedField, None, None]:
     while True:
-        try:
-            num_wire, raw = load_varint(stream)
-        except EOFError:
+        # The stream may only end cleanly at a field boundary, i.e. before a tag.
+        first = stream.read(1)
+        if not first:
             return
+        if first[0] & 0x80:
+            rest, raw = load_varint(stream)
+            num_wire = (first[0] & 0x7F) | (rest << 7)
+            raw = first + raw
+        else:
+            num_wire, raw = first[0], first
         number = num_wire >> 3
         wire_type = num_wire & 0x7
+        if number == 0:
+            raise ValueError("Invalid field number 0.")
 
         decoded: Any = None
         if wire_type == WIRE_VARINT:
             decoded, r = load_varint(stream)
             raw += r
         elif wire_type == WIRE_FIXED_64:
-            decoded = stream.read(8)
+            decoded = _read_exactly(stream, 8)
             raw += decoded
         elif wire_type == WIRE_LEN_DELIM:
             length, r = load_varint(stream)
-            decoded = stream.read(length)
+            decoded = _read_exactly(stream, length)
             raw += r
             raw += decoded
         elif wire_type == WIRE_FIXED_32:
-            decoded = stream.read(4)
+            decoded = _read_exactly(stream, 4)
             raw += decoded
+        else:
+            raise ValueError(f"Unsupported wire type {wire_type}.")
 
         yield ParsedField(number=number, wire_type=wire_type, value=decoded, raw=raw)
 
@@ -639,6 +657,8 @@ def parse_fields(value: bytes) -> Generator[ParsedField, None, None]:
         num_wire, i = decode_varint(value, i)
         number = num_wire >> 3
         wire_type = num_wire & 0x7
+        if number == 0:
+            raise ValueError("Invalid field number 0.")
 
         decoded: Any = None
         if wire_type == WIRE_VARINT:
@@ -651,6 +671,10 @@ def parse_fields(value: bytes) -> Generator[ParsedField, None, None]:
             i += length
         elif wire_type == WIRE_FIXED_32:
             decoded, i = value[i : i + 4], i + 4
+        else:
+            raise ValueError(f"Unsupported wire type {wire_type}.")
+        if i > len(value):
+            raise EOFError("Buffer ended unexpectedly while attempting to parse a field.")
 
         yield ParsedField(
             number=number, wire_type=wire_type, value=decoded, raw=value[start:i]
